@@ -32,6 +32,9 @@ GroupsD == << "SO2_d", "SE2_d", "SO3_d", "SE3_d", "SE_2_3_d", "SGal3_d", "R3_d" 
 GroupsF == << "SO2_f", "SE2_f", "SO3_f", "SE3_f", "SE_2_3_f", "SGal3_f", "R3_f" >>
 \* both tiers run every group in both precisions (the tiers differ in the number of draws per cell and in the sweeps)
 GroupsQ == GroupsD \o GroupsF
+\* bundles on which the algorithms (interpolation, averages) and the tangent vector-space events are also run:
+\* B1 = Bundle<SE2, SO3, R3>, B2 = Bundle<SO2, SE_2_3, R1> (tools/vlib.py BUNDLE_KEYS); every element is drawn in the cell
+GroupsB == << "B1_d", "B2_d", "B1_f" >>
 
 Reps == IF Tier = "thorough" THEN 12 ELSE 2
 Range(s) == { s[i] : i \in 1..Len(s) }
@@ -86,11 +89,18 @@ PlanOf(p) ==
     [] p = "C15" -> { Cell("interp", key, ThetaElem[i], Cyc(<<"zero", "1", "1e3">>, i + j), meth, pk, Cyc(<<"generic", "mid_hi", "near_pi", "small", "zero">>, i + j), "1", v) :
                         key \in Range(GroupsQ), i \in {1, 3, 9, 10}, j \in 1..2, v \in {0, 1},
                         meth \in {"SLERP", "CUBIC", "CNSMOOTH"}, pk \in {"zero", "one", "random", "dyadic", "near0", "near1", "below", "above", "nan"} }
+                    \cup { Cell("interp", key, ThetaElem[i], Cyc(<<"zero", "1", "1e3">>, i + j), meth, pk, Cyc(<<"generic", "mid_hi", "near_pi", "small", "zero">>, i + j), "1", v) :
+                        key \in Range(GroupsB), i \in {1, 9, 10}, j \in 1..2, v \in {0, 1},
+                        meth \in {"SLERP", "CUBIC", "CNSMOOTH"}, pk \in {"zero", "one", "random", "near1", "above"} }
                     \cup { Cell("phi", key, k, "-", "-", "-", "-", "-", 0) : key \in {"SE3_d", "SE3_f"}, k \in {"grid", "random"} }
     [] p = "C16" -> { Cell("avg", key, thc, linc, routine, kind, "-", "-", 0) :
                         key \in Range(GroupsQ), thc \in {"zero", "generic", "near_pi", "at_pi"}, linc \in {"zero", "1", "1e3"},
                         routine \in {"biinvariant", "average", "frechet_left", "frechet_right"},
                         kind \in {"n1", "n2", "n3", "n10", "out1", "same", "empty"} \cup (IF Tier = "thorough" THEN {"n50"} ELSE {}) }
+                    \cup { Cell("avg", key, thc, linc, routine, kind, "-", "-", 0) :
+                        key \in Range(GroupsB), thc \in {"generic", "near_pi"}, linc \in {"1", "1e3"},
+                        routine \in {"biinvariant", "average", "frechet_left", "frechet_right"},
+                        kind \in {"n2", "n10", "out1", "same", "empty"} }
     [] p = "C18" -> { Cell("isapprox", key, ThetaElem[i], linc, Hemis[h], "generic", e, f, 0) :
                         key \in Range(GroupsQ), i \in 1..Len(ThetaElem), h \in 1..2,
                         linc \in {"zero", "1e-8", "1e-3", "1", "1e3", "1e6", "1e9"}, e \in {"eps", "1e-9", "1e-3"}, f \in {"0", "lo", "hi", "tiny"} }
@@ -102,11 +112,12 @@ PlanOf(p) ==
                     \* beyond the listed properties: vector-space operators of tangents, Jacobian*Tangent, utilities, Random()
                     \cup { Cell("tarith", key, thc, linc, "-", "-", "-", "-", 0) : key \in Range(GroupsQ), thc \in {"small", "generic"}, linc \in {"1e-3", "1", "1e6"} }
                     \cup { Cell("misc", key, "-", "-", "-", "-", "-", "-", 0) : key \in Range(GroupsQ) }
+                    \cup { Cell("tarith", key, thc, "1", "-", "-", "-", "-", 0) : key \in Range(GroupsB), thc \in {"small", "generic"} }
 
 \* Jacobian-grade properties are stated for double; single precision is exercised on the same
 \* cells except the 1e6 linear magnitude (the coupling blocks of SGal3 involve products of two
 \* linear coordinates, 1e12, which single precision cannot carry to 1e-3)
-IsFloatKey(k) == \E i \in 1..Len(GroupsF) : GroupsF[i] = k
+IsFloatKey(k) == (\E i \in 1..Len(GroupsF) : GroupsF[i] = k) \/ k = "B1_f"
 FloatOK(c) == /\ (Prop \in {"C05", "C06"} /\ IsFloatKey(c.key)) => (c.linc # "1e6" /\ c.linc2 # "1e6")
               \* averages: the stationarity residual is judged at an absolute 2*sqrt(eps); with coordinates of 1e3 single precision
               \* resolves the SGal3 coupling terms (1e6) to 0.06 only, so the large-spread clouds are double only
